@@ -103,8 +103,65 @@ pub fn scan(rel: &str) -> Result<Vec<String>, String> {
     Ok(items)
 }
 
+/// every `.rs` file under `<dep root>/src`, once per process
+fn all_sources() -> &'static Vec<(String, String)> {
+    static ALL: std::sync::OnceLock<Vec<(String, String)>> = std::sync::OnceLock::new();
+    ALL.get_or_init(|| {
+        let mut out = Vec::new();
+        let Some(root) = dep_root() else { return out };
+        let mut stack = vec![std::path::PathBuf::from(format!("{}/src", root))];
+        while let Some(dir) = stack.pop() {
+            let Ok(rd) = std::fs::read_dir(&dir) else { continue };
+            for e in rd.flatten() {
+                let p = e.path();
+                if p.is_dir() {
+                    stack.push(p);
+                } else if p.extension().map(|x| x == "rs").unwrap_or(false) {
+                    if let Ok(t) = std::fs::read_to_string(&p) {
+                        out.push((p.to_string_lossy().to_string(), t));
+                    }
+                }
+            }
+        }
+        out
+    })
+}
+
+/// Is the function `name` CALLED anywhere in the dependency's `src/` OUTSIDE the file that defines it
+/// (`.name(` / `::name(` / a bare `name(` that is not a `fn name(` definition)?  A new public function
+/// that no other file calls is either dead or a helper of the (mapped) functions of its own file: it
+/// cannot reach a property undriven, so it is recorded, not failed.  A new public function that
+/// another file of the crate calls is a new entry path: that fails the check.
+/// (Comments are not stripped: a mention in a comment counts as a caller — the conservative side.)
+fn has_caller(name: &str, defining_file: &str) -> bool {
+    let pat = format!("{}(", name);
+    for (path, text) in all_sources() {
+        // callers inside the defining file are functions of the same anchored file: they are in the
+        // coverage map themselves (driven, or flagged on their own), the new function is reached
+        // through them
+        if path.ends_with(defining_file) {
+            continue;
+        }
+        let mut from = 0;
+        while let Some(i) = text[from..].find(&pat) {
+            let at = from + i;
+            let before = &text[..at];
+            let prev = before.chars().rev().next().unwrap_or(' ');
+            let is_ident_char = prev.is_alphanumeric() || prev == '_';
+            let is_def = before.trim_end().ends_with("fn");
+            if !is_ident_char && !is_def {
+                return true;
+            }
+            from = at + pat.len();
+        }
+    }
+    false
+}
+
 /// compare the scanned items of `files` with the property's coverage map; record the table in the
-/// evidence (`extra[title]`) and report unaccounted items
+/// evidence (`extra[title]`) and report unaccounted items — only those that can reach the
+/// property: a new enum variant / public field always, a new public function only when something
+/// in the crate calls it (an uncalled new `pub fn` is listed as `UNACCOUNTED (no caller in src/)`)
 pub fn report(out: &mut Out, prop: &str, title: &str, files: &[&str], coverage: &dyn Fn(&str, &str) -> Option<&'static str>) {
     let mut table: BTreeMap<String, String> = BTreeMap::new();
     for f in files {
@@ -119,6 +176,15 @@ pub fn report(out: &mut Out, prop: &str, title: &str, files: &[&str], coverage: 
                         Some(c) => {
                             table.insert(key, c.to_string());
                         }
+                        None if {
+                            // `Type::name` / `fn name`: a function; `Type.field` / variants are never "uncalled"
+                            let fname = it.rsplit("::").next().unwrap_or(&it).trim_start_matches("fn ").to_string();
+                            let is_fn = (it.contains("::") && fname.chars().next().map(|c| c.is_lowercase() || c == '_').unwrap_or(false)) || it.starts_with("fn ");
+                            is_fn && !has_caller(&fname, f)
+                        } => {
+                            table.insert(key, "UNACCOUNTED (no caller outside its own file: dead, or a helper of mapped functions)".into());
+                            out.count(&format!("coverage:{}:new-uncalled-pub-fn", prop));
+                        }
                         None => {
                             table.insert(key, "UNACCOUNTED".into());
                             out.violation(
@@ -132,6 +198,6 @@ pub fn report(out: &mut Out, prop: &str, title: &str, files: &[&str], coverage: 
             }
         }
     }
-    out.count_n(&format!("coverage:{}:items-accounted", prop), table.values().filter(|v| *v != "UNACCOUNTED").count() as u64);
+    out.count_n(&format!("coverage:{}:items-accounted", prop), table.values().filter(|v| !v.starts_with("UNACCOUNTED")).count() as u64);
     out.extra.insert(title.to_string(), json!(table));
 }
